@@ -5,9 +5,11 @@ import functools
 import itertools
 import math
 import operator
+import os
 import pathlib
 import pickle
 import random
+import threading
 from functools import lru_cache, partial, reduce
 from operator import or_
 
@@ -670,9 +672,16 @@ class DiskDict:
             if len(k) > 1:
                 # ensure subparent directories exist
                 fname.parent.mkdir(parents=True, exist_ok=True)
-            # write file!
-            with open(fname, "wb+") as f:
+            # write file! n.b. atomically, to a temporary file first which
+            # is then renamed, so that neither a concurrent reader nor a later
+            # process (if this one dies mid-write) ever sees a partial entry,
+            # which would look present but could never be loaded
+            ftmp = fname.with_name(
+                f"{fname.name}.{os.getpid()}.{threading.get_ident()}.tmp"
+            )
+            with open(ftmp, "wb+") as f:
                 pickle.dump(v, f)
+            os.replace(ftmp, fname)
 
     def __getitem__(self, k):
         try:
